@@ -115,3 +115,30 @@ func init() {
 		return []Tok{TW("lost"), TIn(lost), TW("noclose"), TIn(noclose), TW("of"), TIn(rounds)}
 	})
 }
+
+func init() {
+	opTimeout["c17soak"] = 300 * time.Second
+	// c17soak <carrier> <n> <closer: app|target> <rounds> <procs>
+	//   the c17 scenario (the closing side writes n octets and closes at once, over a fresh client/server pair) <rounds> times with <procs>
+	//   scheduler threads: what depends on how the goroutines of the two ends happen to interleave shows as a rate
+	//  -> lost <rounds with octets missing or wrong> noeof <rounds without end-of-stream> failed <rounds that could not run> of <rounds>
+	register("c17soak", func(a []Tok) []Tok {
+		rounds, procs := int(a[3].I), int(a[4].I)
+		old := runtime.GOMAXPROCS(procs)
+		defer runtime.GOMAXPROCS(old)
+		lost, noeof, failed := 0, 0, 0
+		for r := 0; r < rounds; r++ {
+			o := ops["c17"](a[:3])
+			if len(o) < 6 || o[0].W != "got" {
+				failed++
+				continue
+			}
+			if o[1].I != a[1].I || o[3].I != -1 {
+				lost++
+			} else if o[5].I != 1 {
+				noeof++
+			}
+		}
+		return []Tok{TW("lost"), TIn(lost), TW("noeof"), TIn(noeof), TW("failed"), TIn(failed), TW("of"), TIn(rounds)}
+	})
+}
